@@ -6,6 +6,7 @@ import (
 	"oss.terrastruct.com/d2/d2format"
 
 	"verif/gen"
+	"verif/proj"
 	"verif/run"
 )
 
@@ -110,7 +111,7 @@ func c36Import(s *orcStep, res *run.Result) {
 		res.Inc("updateimport_equivalent_target_judged")
 		if pre != post {
 			orcViol(res, "C36.pi-differs", "C36.pi-differs:updateimport:equivalent-target",
-				fmt.Sprintf("redirecting an import to an identical file changed the diagram\n%s", s.describe()))
+				fmt.Sprintf("redirecting an import to an identical file changed the diagram\n%s\n%s", proj.Diff(pre, post), s.describe()))
 		}
 	}
 }
@@ -118,7 +119,9 @@ func c36Import(s *orcStep, res *run.Result) {
 func (st *orcState) snapPiAll() string {
 	out := ""
 	for i := range st.Boards {
-		out += st.Boards[i].Key + "\n" + st.snap(i).Pi + "\n"
+		// as a multiset: the order in which imported and local objects are listed may depend
+		// on the import path and is not part of what C36 states
+		out += st.Boards[i].Key + "\n" + st.snap(i).PiSorted + "\n"
 	}
 	return out
 }
